@@ -77,6 +77,7 @@ type Contract struct {
 	NilRecvOK          bool
 	SpecOnly           bool
 	Unverified         []string // interface contract: implementing types whose refinement is assumed, not proved
+	Claims      map[string]bool // if set: only these obligation kinds are generated (the others are listed as not claimed)
 	AssumeCalleeFrames bool     // havoc callees are assumed not to write caller-visible memory (listed in the evidence)
 	CheckAlias         bool     // emit alias obligations on append into non-fresh spare capacity (C09/C10)
 	IsIface            bool     // interface-level contract: <Iface>.<Method>
@@ -245,6 +246,11 @@ func (ss *SpecSet) parseSpec(text, path, pkgPath string) error {
 			cur.InlineAll = true
 		case "unverified":
 			cur.Unverified = append(cur.Unverified, strings.Fields(rest)...)
+		case "claims":
+			cur.Claims = map[string]bool{}
+			for _, k := range strings.Fields(rest) {
+				cur.Claims[k] = true
+			}
 		case "assume-callee-frames":
 			cur.AssumeCalleeFrames = true
 		case "no-alias-writes":
